@@ -1,6 +1,7 @@
 package main
 
 import (
+	"context"
 	"fmt"
 	"strconv"
 	"strings"
@@ -63,6 +64,7 @@ var baseHandler verifhook.HandlerFunc
 
 type cop struct {
 	delayMs int
+	ctxMs   int // -1: no deadline; 0: cancelled before the call; >0: deadline in ms
 	fields  []string
 }
 
@@ -112,7 +114,15 @@ func (w *world) runConcurrent(cops []cop, parks []*park, workers int, deadline t
 				time.Sleep(time.Duration(cops[i].delayMs) * time.Millisecond)
 			}
 			ti := time.Since(t0).Microseconds()
-			out := w.exec(cops[i].fields)
+			ctx, cancel := context.Background(), context.CancelFunc(func() {})
+			if cops[i].ctxMs == 0 {
+				ctx, cancel = context.WithCancel(ctx)
+				cancel()
+			} else if cops[i].ctxMs > 0 {
+				ctx, cancel = context.WithTimeout(ctx, time.Duration(cops[i].ctxMs)*time.Millisecond)
+			}
+			out := w.execCtx(ctx, cops[i].fields)
+			cancel()
 			tr := time.Since(t0).Microseconds()
 			res[i] = fmt.Sprintf("%d,%d,%s", ti, tr, strings.ReplaceAll(out, " ", "+"))
 			done <- i
